@@ -294,6 +294,8 @@ def recount(model):
             info[f"count_{c:0{d}d}"] = counts.get(c, 0)
             info[f"segs_{c:0{d}d}"] = segs.get(c, 0)
     unj_keys = set()
+    if not utts:
+        unj_keys.add("total_tokens")  # 'sum of R (if available)' over no utterances: 0 or -1, not judged
     if info["max_ref_class"] >= 0:
         d = int(math.log10(max(info["max_ref_class"], 1))) + 1
         for c in range(info["max_ref_class"] + 1):
